@@ -29,6 +29,15 @@ class Lossy(Exception):
     pass
 
 
+class FmtErr(Exception):
+    """a crate Display/LowerHex impl returned Err(fmt::Error)"""
+    pass
+
+
+FMT_PANIC_TO_STRING = 'a Display implementation returned an error unexpectedly'
+FMT_PANIC_FORMAT = 'a formatting trait implementation returned an error when the underlying stream did not'
+
+
 DBG = [ord(c) for c in '<debug>']
 
 
@@ -177,6 +186,7 @@ def display_bytes(ex, ref, ty='', opts=None, kind='display'):
             if b is not None:
                 f = FormatterV([], opts)
                 r = ex.call_body(b, [Ptr(Cell(v)), Ptr(Cell(f))])
+                if isinstance(r, Agg) and r.variant == 1: raise FmtErr()
                 return f.sink
         from .models import values_eq
         m = ex.find_model('display:' + v.ty) or ex.find_model('display:' + v.ty.split('::')[-1])
@@ -211,7 +221,10 @@ def m_arguments_as_str(ex, site, a):
 
 @model('fmt::format', 'fmt::format::format_inner')
 def m_format(ex, site, a):
-    return string_of(render_args(ex, a[0], lossy=True))
+    try:
+        return string_of(render_args(ex, a[0], lossy=True))
+    except FmtErr:
+        raise Panic('fmt', FMT_PANIC_FORMAT, ex.where())
 
 
 def sink_of(ex, w):
@@ -237,6 +250,10 @@ def m_write_fmt(ex, site, a):
         bs = render_args(ex, a[1])
     except Lossy:
         raise Unsupported('formatting a value without a Display model into observable output')
+    except FmtErr:
+        sk = sink_of(ex, a[0])
+        if isinstance(sk, FormatterV) or 'io::' not in site.raw: return err(unit())
+        return err(io_error('Other', string_of(list(b'formatter error'))))
     return write_bytes(ex, a[0], bs)
 
 
@@ -289,6 +306,8 @@ def m_display_fmt(ex, site, a):
         bs = display_bytes(ex, a[0], site.self_ty, f.opts, kind)
     except Lossy:
         raise Unsupported('Display of %s' % site.self_ty)
+    except FmtErr:
+        return err(unit())
     f.sink.extend(bs); return ok(unit())
 
 
